@@ -13,6 +13,8 @@ package c14
 import (
 	"fmt"
 
+	"go.sia.tech/core/types"
+
 	"verifharness/chainx"
 	"verifharness/poolrig"
 	"verifharness/vh"
@@ -58,13 +60,67 @@ func runCase(r *vh.Run, rng *vh.RNG, name string, steps int) {
 	w.Finish(nontrivial, tags...)
 }
 
+// nearLimitSet: the pool weighs about 17M of the 20M at which it is considered full; one set of three
+// new transactions crosses that line before its last member.  All or nothing: the call succeeds, so
+// every member must be pooled - the eviction at the next query takes the transactions with the
+// lowest fee rates, and the set's members have the highest.
+func nearLimitSet(r *vh.Run, rng *vh.RNG, name string, v2 bool) {
+	w := poolrig.NewWorld(r, rng, name, chainx.PoolNet(rng, 1, 1000))
+	g := &poolrig.Gen{W: w, Rng: rng}
+	tip := 0
+	for i := 0; i < 14; i++ {
+		tip = w.GrowRandom(tip, 0)
+	}
+	w.Refresh()
+	cs := w.Node.CM.TipState()
+	free := w.FreeCoins()
+	if len(free) < 13 {
+		w.Finish(false, "near-limit-skipped")
+		return
+	}
+	for k := 0; k < 9; k++ {
+		size := 1_880_000 + rng.Intn(40_000)
+		fee := types.Siacoins(uint32(2 + k))
+		if v2 {
+			g.AddV2(w.TipID(), []types.V2Transaction{w.SpendV2(cs, free[k:k+1], 1, fee, size)}, nil, "fresh", -1, false)
+		} else {
+			g.AddV1([]types.Transaction{w.SpendV1(cs, free[k:k+1], 1, fee, size)}, nil, "fresh", -1, false)
+		}
+	}
+	// 9 x 1.9M = 17.1M; + 1.5M = 18.6M; + 1.5M = 20.1M (the line is crossed by the second member)
+	res := ""
+	if v2 {
+		set := []types.V2Transaction{
+			w.SpendV2(cs, free[9:10], 1, types.Siacoins(50), 1_500_000),
+			w.SpendV2(cs, free[10:11], 1, types.Siacoins(51), 1_500_000),
+			w.SpendV2(cs, free[11:12], 1, types.Siacoins(1), 0),
+			w.SpendV2(cs, free[12:13], 1, types.Siacoins(2), 0),
+		}
+		res = g.AddV2(w.TipID(), set, nil, "crossing-the-pool-limit", -1, false)
+	} else {
+		set := []types.Transaction{
+			w.SpendV1(cs, free[9:10], 1, types.Siacoins(50), 1_500_000),
+			w.SpendV1(cs, free[10:11], 1, types.Siacoins(51), 1_500_000),
+			w.SpendV1(cs, free[11:12], 1, types.Siacoins(1), 0),
+			w.SpendV1(cs, free[12:13], 1, types.Siacoins(2), 0),
+		}
+		res = g.AddV1(set, nil, "crossing-the-pool-limit", -1, false)
+	}
+	g.Lookups(false)
+	w.Refresh()
+	w.Finish(res == "ok", "near-limit-set", fmt.Sprintf("near-limit-set-v2:%v", v2))
+}
+
 func Run(r *vh.Run) {
-	r.Rule = "a case = one real chain.Manager on a growing fork tree (v2 allow height in {1,2,4}, require height allow+0..9 or never) driven by 40-80 generated steps: fresh v1/v2 sets (independent, parent/child, spending pooled outputs), partly and wholly known sets, sets conflicting with the pool at a random position k of n<=4, sets invalid at position k (bad signature / double spend inside the set / missing output), stale and unknown bases, lookups through both APIs (v1, v2, former, unknown ids), aliasing probes, blocks confirming pool prefixes, fork blocks and reorgs; non-trivial = at least one accepted and one rejected submission; distinct = distinct op lists"
+	r.Rule = "a case = one real chain.Manager on a growing fork tree (v2 allow height in {1,2,4}, require height allow+0..9 or never) driven by 40-80 generated steps: fresh v1/v2 sets (independent, parent/child, spending pooled outputs), partly and wholly known sets, sets conflicting with the pool at a random position k of n<=4, sets invalid at position k (bad signature / double spend inside the set / missing output), stale and unknown bases, lookups through both APIs (v1, v2, former, unknown ids), aliasing probes, blocks confirming pool prefixes, fork blocks and reorgs; plus near-limit cases: nine 1.9M-weight transactions (17M of the 20M pool limit), then ONE set of four new transactions that crosses the limit at its second member (the set has the highest fee rates, so the eviction at the next query spares it): every member must be pooled; v1 / v2. non-trivial = at least one accepted and one rejected submission; distinct = distinct op lists"
 	rng := vh.NewRNG(r.Seed).Fork() // seeds are consecutive stream positions of splitmix64; fork to decorrelate them
 	n := r.Pick(250, 1500)
 	for i := 0; i < n; i++ {
 		crng := rng.Fork()
 		runCase(r, crng, fmt.Sprintf("c%d", i), r.Pick(50, 90))
+	}
+	for i := 0; i < r.Pick(2, 6); i++ {
+		nearLimitSet(r, rng.Fork(), fmt.Sprintf("n%d", i), i%2 == 1)
 	}
 	r.Assume("signatures, values and maturity are consensus parameters: a transaction carries the harness's knowledge of whether it corrupted it (ok) and the signature era it was signed in")
 	r.Assume("Merkle proof verification is core's: per-input verdicts against the claimed basis are passed to the model as flags; proof values are compared with the shadow ledger by the oracle only")
